@@ -30,6 +30,7 @@ void silk_stereo_quant_pred(opus_int32 pred_Q13[], opus_int8 ix[2][3]);
 opus_int32 silk_stereo_find_predictor(opus_int32 *ratio_Q14, const opus_int16 x[], const opus_int16 y[],
                                       opus_int32 mid_res_amp_Q0[], opus_int length, opus_int smooth_coef_Q16);
 
+static int lr_search = 0;   /* `lr <seed> <n> search`: only the W / S lines (implementation-only search) */
 static opus_int32 rec_find[2][2], rec_q[2];
 static int n_find = 0, n_q = 0;
 
@@ -103,6 +104,13 @@ static void do_lr(uint64_t seed, long nseq)
       int fs = fss[vbelow(&r, 3)], is10 = vchance(&r, 25), len = (is10 ? 10 : 20) * fs, cls = (int)vbelow(&r, 8), k, i;
       int nfr = vrange(&r, 2, 8), rate = vrange(&r, 6000, 64000), pan = vrange(&r, 0, 16384), amp = 1 << vrange(&r, 4, 15);
       stereo_enc_state st; memset(&st, 0, sizeof(st));
+      /* half of the sequences start from the reset state, the others from a state as a longer run leaves it (smoothed
+         width anywhere in [0, 2^14]); one in ten from an ARBITRARY opus_int16 width (the bound is proved for any state) */
+      if (vchance(&r, 50)) {
+         st.smth_width_Q14 = (opus_int16)(vchance(&r, 20) ? vrange(&r, -32768, 32767) : vchance(&r, 30) ? 16384 : vrange(&r, 0, 16384));
+         st.width_prev_Q14 = (opus_int16)(vchance(&r, 30) ? 0 : vchance(&r, 50) ? 16384 : vrange(&r, 0, 16384));
+         st.pred_prev_Q13[0] = (opus_int16)vrange(&r, -13364, 13362); st.pred_prev_Q13[1] = (opus_int16)vrange(&r, -13364, 13362);
+      }
       for (k = 0; k < nfr; k++) {
          opus_int16 *b1 = (opus_int16 *)calloc(len + 2, sizeof(opus_int16)), *b2 = (opus_int16 *)calloc(len + 2, sizeof(opus_int16));
          opus_int8 ix[2][3], mid_only = 0; opus_int32 rates[2]; int act = vchance(&r, 15) ? 0 : vrange(&r, 0, 255), toMono = vchance(&r, 6);
@@ -123,14 +131,16 @@ static void do_lr(uint64_t seed, long nseq)
          }
          n_find = 0; n_q = 0;
          vlocal_stereo_LR_to_MS(&st, b1 + 2, b2 + 2, ix, &mid_only, rates, rate, act, toMono, fs, len);
-         printf("I silkparams stereo-lrpreds %d %d %d %d %d %d %d %d %d %d %d\n", smth0, wprev0, rate, fs, is10, act, toMono,
-                rec_find[0][0], rec_find[0][1], rec_find[1][0], rec_find[1][1]);
-         printf("O OK %d %d %d %d\n", rec_q[0], rec_q[1], st.smth_width_Q14, st.width_prev_Q14);
-         if (n_find != 2 || n_q != 1) { printf("W calls silk_stereo_LR_to_MS frame %d of sequence %ld => find_predictor calls %d, quant_pred calls %d\n", k, s, n_find, n_q); nw++; }
+         if (!lr_search) {
+            printf("I silkparams stereo-lrpreds %d %d %d %d %d %d %d %d %d %d %d\n", smth0, wprev0, rate, fs, is10, act, toMono,
+                   rec_find[0][0], rec_find[0][1], rec_find[1][0], rec_find[1][1]);
+            printf("O OK %d %d %d %d\n", rec_q[0], rec_q[1], st.smth_width_Q14, st.width_prev_Q14);
+         }
+         if (lr_search && (n_find != 2 || n_q != 1)) { printf("W calls silk_stereo_LR_to_MS frame %d of sequence %ld => find_predictor calls %d, quant_pred calls %d\n", k, s, n_find, n_q); nw++; }
          for (i = 0; i < 2; i++) {
             opus_int32 a = rec_q[i] < 0 ? -rec_q[i] : rec_q[i];
             if (a > maxabs) maxabs = a;
-            if (a > 32768) { printf("W bound silk_stereo_LR_to_MS seed %llu sequence %ld frame %d (fs %d rate %d act %d class %d) => pred_Q13[%d] = %d handed to silk_stereo_quant_pred\n", (unsigned long long)seed, s, k, fs, rate, act, cls, i, rec_q[i]); nw++; }
+            if (lr_search && a > 32768) { printf("W bound silk_stereo_LR_to_MS seed %llu sequence %ld frame %d (fs %d rate %d act %d class %d) => pred_Q13[%d] = %d handed to silk_stereo_quant_pred\n", (unsigned long long)seed, s, k, fs, rate, act, cls, i, rec_q[i]); nw++; }
          }
          if (rec_q[0] == rec_find[0][0] && rec_q[1] == rec_find[1][0]) full++; else if (rec_q[0] == 0 && rec_q[1] == 0) zero++; else scaled++;
          if (st.smth_width_Q14 < minsm) minsm = st.smth_width_Q14;
@@ -139,8 +149,8 @@ static void do_lr(uint64_t seed, long nseq)
          free(b1); free(b2);
       }
    }
-   printf("# dist lr: calls=%ld unscaled=%ld scaled=%ld zero=%ld\n", calls, full, scaled, zero);
-   printf("S cases=%ld max|pred|=%d smth_width range=[%d,%d] witnesses=%ld\n", calls, maxabs, minsm, maxsm, nw);
+   printf("# dist lr: calls=%ld unscaled=%ld scaled=%ld zero=%ld max|pred|=%d\n", calls, full, scaled, zero, maxabs);
+   if (lr_search) printf("S cases=%ld max|pred|=%d smth_width range=[%d,%d] witnesses=%ld\n", calls, maxabs, minsm, maxsm, nw);
 }
 
 static void do_midonly(void)
@@ -163,7 +173,7 @@ int main(int argc, char **argv)
 {
    vinstall_traps();
    if (argc >= 4 && !strcmp(argv[1], "find")) do_find(strtoull(argv[2], 0, 10), atol(argv[3]));
-   else if (argc >= 4 && !strcmp(argv[1], "lr")) do_lr(strtoull(argv[2], 0, 10), atol(argv[3]));
+   else if (argc >= 4 && !strcmp(argv[1], "lr")) { lr_search = argc >= 5 && !strcmp(argv[4], "search"); do_lr(strtoull(argv[2], 0, 10), atol(argv[3])); }
    else if (argc >= 2 && !strcmp(argv[1], "midonly")) do_midonly();
    else { fprintf(stderr, "usage: c18_stereoenc find <seed> <n> | lr <seed> <n> | midonly\n"); return 2; }
    return 0;
